@@ -184,6 +184,26 @@ func gen(r *prng.R, f proto.Flags, emit func(proto.Case)) {
 		}
 		rec6(nil)
 	}
+	// level 2 (glue) cases are executed by the framework's Exec directly (one child process, sequential)
+	gn := 500
+	if f.Tier == "thorough" {
+		gn = 5000
+	}
+	gn *= f.Budget
+	var glueCases []proto.Case
+	for k := 0; k < gn; k++ {
+		glueCases = append(glueCases, glueCase(r.Fork(), fmt.Sprintf("gg%d", k)))
+	}
+	if f.Tier == "thorough" {
+		glueEnum(5, func(c proto.Case) { glueCases = append(glueCases, c) })
+	} else {
+		glueEnum(3, func(c proto.Case) { glueCases = append(glueCases, c) })
+	}
+	defer func() {
+		for _, c := range glueCases {
+			emit(c)
+		}
+	}()
 	// execute in chunks on parallel workers, then hand the cases to the framework in order
 	const chunk = 600
 	for i := 0; i < len(cases); i += chunk {
